@@ -9,6 +9,8 @@ import (
 	"path/filepath"
 	"strings"
 
+	"golang.org/x/tools/go/types/typeutil"
+
 	"ogenverif/internal/core"
 )
 
@@ -180,6 +182,9 @@ type Options struct {
 	Filter func(s *Site) bool
 	// KeyPrefix is prepended to finding keys.
 	Table *Table
+	// ScopePkgs lists further packages whose own obligations are enumerated
+	// by the same property (for inlined copies).
+	ScopePkgs []string
 }
 
 // Discharge runs guard recognition and table lookup over sites, recording
@@ -187,12 +192,35 @@ type Options struct {
 func Discharge(c *core.Ctx, r *core.Rule, sites []*Site, opt Options) int {
 	ec := envCache{}
 	n := 0
+	scope := map[string]bool{}
+	for _, s := range sites {
+		scope[s.Pkg.PkgPath] = true
+	}
+	for _, p := range opt.ScopePkgs {
+		scope[p] = true
+	}
 	for _, s := range sites {
 		if opt.Filter != nil && !opt.Filter(s) {
 			continue
 		}
 		n++
 		pos := c.RelPos(s.Pos)
+		if ce, isCall := s.Node.(*ast.CallExpr); isCall {
+			// the compiler attributes bounds checks of an inlined callee to the call
+			// site: the obligation is the callee's own (enumerated there when the
+			// callee belongs to an analysed package)
+			if fn := typeutil.StaticCallee(s.Pkg.TypesInfo, ce); fn != nil && fn.Pkg() != nil {
+				cp := fn.Pkg().Path()
+				switch {
+				case scope[cp]:
+					r.Pass(fmt.Sprintf("%s at %s — inlined copy of %s.%s, whose own obligations are enumerated at its declaration", s.Key(), pos, core.ShortPkg(cp), fn.Name()))
+					continue
+				case !(cp == core.Module || strings.HasPrefix(cp, core.Module+"/")):
+					r.Pass(fmt.Sprintf("%s at %s — inlined dependency code (%s.%s): outside the ogen module, trusted", s.Key(), pos, cp, fn.Name()))
+					continue
+				}
+			}
+		}
 		if ok, why := TryGuards(ec, s); ok {
 			r.Pass(fmt.Sprintf("%s at %s — guards: %s", s.Key(), pos, why))
 			continue
